@@ -12,8 +12,15 @@ Every simulated worker also serves samples and runs every collator registered on
 the same worker seed has to reproduce those outputs (this covers the wrappers' own draws - MUGS / mix wrapper without
 seed - which have no generator slot).  Launch cases run the same seeded workers in two fresh interpreters with
 different PYTHONHASHSEED values and compare all of it.
-Thorough tier: a real DataLoader(num_workers=2/3, worker_init_fn=dataset.worker_init_fn) whose dataset returns the
-member draws.
+Worker-init HISTORIES: before the worker copies are made the hook runs 0 / 1 / 2 times on the parent object (a manual
+call for num_workers = 0, an earlier launch on the same dataset), and inside a worker copy it may run once more BEFORE
+the run with the worker's seed (with another seed): the last seed has to win, whatever ran before.  What
+torch.utils.data.get_worker_info() answers in the simulated worker is part of the case: None (manual call) or
+(id, num_workers) for num_workers in {1, 2, 3} - the hook of the transforms consults it.
+Real DataLoader cases (both tiers; quick: one batch of stacks per worker count in {1, 2, 3}, all stacks of a batch
+in ONE loader launch): DataLoader(num_workers=n, worker_init_fn=<hook of every stack>) whose probe dataset returns, from
+inside the worker process, the first draws of every member generator, served samples and collated batches; two
+launches with different base seeds must differ in every member stream, two with equal seeds must agree in everything.
 """
 import copy
 import traceback
@@ -47,7 +54,12 @@ TRUSTED = L.TRUSTED_COMMON + [
     "fields through vars(), registered collators), patched np.random.default_rng (k-th generator created during "
     "worker_init_fn = Wrk k)",
     "copy.deepcopy stands for what a worker process receives (fork copy / pickle round trip); np.random.seed(s) stands "
-    "for the DataLoader's per-worker seeding of the global NumPy RNG (the thorough tier runs the real DataLoader)",
+    "for the DataLoader's per-worker seeding of the global NumPy RNG; torch.utils.data.get_worker_info() is mocked by "
+    "setting torch.utils.data._utils.worker._worker_info to a WorkerInfo(id, num_workers, seed, dataset) (what "
+    "_worker_loop does); real DataLoader runs (fork start method) for num_workers 1, 2, 3 are part of BOTH tiers",
+    "translate_rng.transform_hook_shape / kdwrapper_hook_ok (shape of KDTransform.worker_init_fn and "
+    "KDWrapper.worker_init_fn: unconditional re-seed, no state) are syntactic, validated by the negative self-test "
+    "translate_rng.hook_selftest (20 synthetic bodies) on every run",
     "differently seeded NumPy generators give unrelated streams, and np.random.randint after np.random.seed(s) is a "
     "function of s: NumPy's properties (observed on the first 64 draws of every member generator, not proved)",
 ]
@@ -68,8 +80,12 @@ RULE = ("stacks: root (tensor or PIL data, 0-2 registered collators) under 1-4 l
         "transform wrappers over random transform trees, KDMultiViewWrapper (1-3 per-view trees), BYOL / minaug / MUGS "
         "multi-view wrappers, SemsegTransformWrapper, KDMixWrapper without seed (bare, above / below transform wrappers, "
         "below a multi-view wrapper), subset / shuffle / repeat / label-smoothing wrappers, KDConcatDataset "
-        "of sub-stacks, under ModeWrapper or _InterleavedConcatDataset of ModeWrappers; parent history, 2 worker seeds + "
-        "repeat (worker seeds 0 / 1 in ~12%, parent seed 0 in half of the cases), random rank; per worker: member "
+        "of sub-stacks, under ModeWrapper or _InterleavedConcatDataset of ModeWrappers; parent history (warm-up requests, "
+        "0-2 earlier runs of worker_init_fn on the parent object with other global seeds), 2 worker seeds + "
+        "repeat (worker seeds 0 / 1 in ~12%, parent seed 0 in half of the cases), 0-2 earlier runs of the hook inside "
+        "the worker copy with other seeds (differently many for the repeat: the last seed must win), "
+        "get_worker_info() = None or (id, num_workers in 1..3), rank = id; real DataLoader(num_workers = 1, 2, 3) "
+        "batches in both tiers (3 launches each: base seeds a, b, a); per worker: member "
         "streams, served samples, every registered collator called on a real batch; one (quick) / three (thorough, 80 "
         "stacks each) cross-launch cases: the same seeded workers in two fresh interpreters with different "
         "PYTHONHASHSEED; non-trivial = at least one generator slot was re-seeded and a re-seeded generator drew; "
@@ -239,10 +255,28 @@ def pick_ws(rng):
     return 0 if r < 0.08 else 1 if r < 0.12 else rng.randrange(2 ** 31 - 1)
 
 
-def mk_case(rng, spec):
+def pick_wi(rng):
+    """what torch.utils.data.get_worker_info() answers inside the simulated worker: None (main process / manual call of
+    the hook) or [id, num_workers] as in a worker of DataLoader(num_workers = 1, 2, 3)"""
+    if rng.random() < 0.3:
+        return None
+    nw = rng.choice([1, 1, 2, 3])
+    return [rng.randrange(nw), nw]
+
+
+def _other_seed(rng, taken):
+    while True:
+        v = rng.choice([0, 1, rng.randrange(10 ** 6), rng.randrange(2 ** 31 - 1)])
+        if v not in taken:
+            taken.add(v)
+            return v
+
+
+def mk_case(rng, spec, wi="pick", nph=None, wh=None):
     n = total_len(spec)
     # (the parent's global seed differs from the worker seeds: with equal seeds a worker legitimately re-creates the
-    # generators the parent created, which is not what "still the inherited copy" is about)
+    # generators the parent created, which is not what "still the inherited copy" is about; the same holds for the
+    # seeds of earlier runs of the hook)
     ga = rng.choice([0, rng.randrange(10 ** 6)])
     ws1 = pick_ws(rng)
     while ws1 == ga:
@@ -250,8 +284,24 @@ def mk_case(rng, spec):
     ws2 = pick_ws(rng)
     while ws2 in (ws1, ga):
         ws2 = pick_ws(rng)
+    if wi == "pick":
+        wi = pick_wi(rng)
+    taken = {ga, ws1, ws2}
+    # worker-init histories.  phist: global seeds of earlier runs of the hook ON THE PARENT OBJECT (before the worker
+    # copies are made).  wh = [pre1, pre2, pre1b]: seeds of earlier runs of the hook INSIDE the copies of the first
+    # worker, the second worker and the repeat of the first (the second starts with the FIRST worker's seed: if the
+    # first run won, the two workers would replay one another; the repeat has a different history than the first)
+    if nph is None:
+        r = rng.random()
+        nph = 0 if r < 0.55 else 1 if r < 0.85 else 2
+    phist = [_other_seed(rng, taken) for _ in range(nph)]
+    if wh is None:
+        r = rng.random()
+        wh = [0, 0, 0] if r < 0.6 else [0, 1, 1] if r < 0.75 else [1, 1, 0] if r < 0.9 else [1, 0, 2]
+    pre = [[_other_seed(rng, taken) for _ in range(wh[0])], [ws1] * wh[1], [_other_seed(rng, taken) for _ in range(wh[2])]]
     return {"kind": "sim", "spec": spec, "ga": ga, "ws1": ws1,
-            "ws2": ws2, "rank": rng.randrange(4), "warm": [rng.randrange(n) for _ in range(rng.choice([0, 1, 3]))],
+            "ws2": ws2, "rank": wi[0] if wi else rng.randrange(4), "wi": wi, "phist": phist, "wh": pre,
+            "warm": [rng.randrange(n) for _ in range(rng.choice([0, 1, 3]))],
             "probe": sorted({0, n - 1} | {rng.randrange(n) for _ in range(4)})}
 
 
@@ -285,6 +335,24 @@ def directed_cases(rng, info):
         out.append(mk_case(rng, {"root": root(col=(c,)), "layers": [], "mode": "x class"}))
         out.append(mk_case(rng, {"root": root(col=(c, "KDMixCollator")), "layers": [x], "mode": "x class"}))
     out.append(mk_case(rng, {"root": root(col=("KDDinoMaskCollator",)), "layers": [{"w": "KDMultiViewWrapper", "cfg": [[2, leaf()]]}], "mode": "x"}))
+    # worker-init histories and every answer of get_worker_info() on the basic shapes: transform wrapper (flat, nested),
+    # multi-view, semseg, two wrapper layers over a root with collators, a bare root with a collator
+    comp = {"c": "KDComposeTransform", "k": [leaf(), {"c": "KDRandomApply", "a": 1, "k": [{"c": "KDRandomHorizontalFlip", "a": 0}]}]}
+    shapes = [({"root": root(), "layers": [x], "mode": "x"}),
+              ({"root": root(col=("KDMixCollator",)), "layers": [{"w": "XTransformWrapper", "t": comp}, {"w": "SubsetWrapper", "idx": [1, 0, 2]},
+                                                                 {"w": "YTransformWrapper", "t": leaf()}], "mode": "x y"}),
+              ({"root": root(col=("KDDinoMaskCollator",)), "layers": [{"w": "KDMultiViewWrapper", "cfg": [[2, comp], [1, leaf()]]}], "mode": "x"}),
+              ({"root": root(), "layers": [{"w": "SemsegTransformWrapper", "ts": [{"c": "KDSemsegRandomHorizontalFlip", "a": 0},
+                                                                                  {"c": "KDSemsegRandomCrop", "a": 0}]}], "mode": "x semseg"}),
+              ({"root": root(col=("KDMixCollator", "KDIjepaMaskCollator")), "layers": [], "mode": "x class"}),
+              ({"root": root("pil"), "layers": [{"w": "ByolMultiViewWrapper", "n": 2, "nloc": 2}], "mode": "x"})]
+    for k, sp in enumerate(shapes):
+        for wi in (None, [0, 1], [1, 2], [2, 3]):
+            out.append(mk_case(rng, sp, wi=wi, nph=0, wh=[0, 0, 0]))
+        out.append(mk_case(rng, sp, wi=None, nph=1, wh=[0, 0, 0]))
+        out.append(mk_case(rng, sp, wi=[0, 1] if k % 2 else [0, 2], nph=2, wh=[0, 0, 0]))
+        out.append(mk_case(rng, sp, wi=None if k % 2 else [1, 3], nph=0, wh=[0, 1, 1]))
+        out.append(mk_case(rng, sp, wi=[0, 1], nph=1, wh=[1, 1, 2]))
     # the wrappers' own draws without a seed: sample-level mix (bare, above and below transform wrappers, below a
     # multi-view wrapper), MUGS
     mix = {"w": "KDMixWrapper", "p": 1.0, "alpha": 0.8}
@@ -312,10 +380,47 @@ def launch_case(rng, n_random):
     return {"kind": "launch", "items": launch_items(rng, n_random), "hs": hs}
 
 
-def loader_case(rng):
-    spec = gen_spec(rng, no_sched=True)
-    return {"kind": "loader", "spec": spec, "ga": rng.randrange(10 ** 6), "nw": rng.choice([2, 3]),
-            "ts1": rng.randrange(10 ** 6), "ts2": rng.randrange(10 ** 6)}
+def loader_items(rng, n_random):
+    """stacks for one real-DataLoader batch: the basic shapes (transform wrappers flat / nested / stacked, multi-view,
+    semseg, PIL pipelines, mix wrapper and MUGS with draws of their own, collators on the root) plus random stacks; every
+    item with 0 / 1 earlier runs of the hook on the parent object"""
+    root = lambda kind="img", col=(): {"kind": kind, "N": 6, "S": 32 if kind == "pil" else 16, "col": [dict(c=c) for c in col]}  # noqa
+    leaf = lambda: {"c": "KDRandomCrop", "a": 0}  # noqa
+    x = {"w": "XTransformWrapper", "t": leaf()}
+    comp = {"c": "KDComposeTransform", "k": [leaf(), {"c": "KDRandomApply", "a": 1, "k": [{"c": "KDRandomHorizontalFlip", "a": 0}]},
+                                             {"c": "PatchwiseTransform", "a": 1, "k": [{"c": "KDRandomHorizontalFlip", "a": 0}]}]}
+    mix = {"w": "KDMixWrapper", "p": 1.0, "alpha": 0.8}
+    specs = [{"root": root(col=("KDMixCollator",)), "layers": [{"w": "XTransformWrapper", "t": comp}, {"w": "KDSubset", "idx": [2, 1, 1, 0]},
+                                                               {"w": "YTransformWrapper", "t": leaf()}], "mode": "x y"},
+             {"root": root(col=("KDDinoMaskCollator",)), "layers": [{"w": "KDMultiViewWrapper", "cfg": [[2, comp], [1, leaf()]]}], "mode": "x"},
+             {"root": root(), "layers": [{"w": "SemsegTransformWrapper", "ts": [{"c": "KDSemsegRandomHorizontalFlip", "a": 0},
+                                                                                {"c": "KDSemsegRandomCrop", "a": 0}]}], "mode": "x semseg"},
+             {"root": root(col=("KDMixCollator", "KDIjepaMaskCollator")), "layers": [x, mix], "mode": "x class"}]
+    pil = [{"root": root("pil"), "layers": [{"w": w, "n": 2, "nloc": 2}], "mode": "x"}
+           for w in ("ByolMultiViewWrapper", "MUGSMultiViewWrapper", "ImagenetMinaugXTransformWrapper")]
+    specs.append(rng.choice(pil))
+    specs += [gen_spec(rng, no_sched=True) for _ in range(n_random)]
+    items = []
+    for sp in specs:
+        taken = set()
+        ga = _other_seed(rng, taken)
+        items.append({"spec": sp, "ga": ga, "phist": [_other_seed(rng, taken) for _ in range(rng.choice([0, 0, 1]))]})
+    return items
+
+
+def loader_case(rng, nw=None, n_random=3):
+    ts1 = rng.randrange(10 ** 6)
+    ts2 = rng.randrange(10 ** 6)
+    while ts2 == ts1:
+        ts2 = rng.randrange(10 ** 6)
+    return {"kind": "loader", "items": loader_items(rng, n_random), "nw": nw or rng.choice([1, 2, 3]), "ts1": ts1, "ts2": ts2}
+
+
+def _loader_items(case):
+    """(cases written before the batching hold ONE stack: spec / ga at top level)"""
+    if "items" in case:
+        return case["items"]
+    return [{"spec": case["spec"], "ga": case["ga"], "phist": []}]
 
 
 def gen_cases(rng, tier):
@@ -324,9 +429,12 @@ def gen_cases(rng, tier):
     if info["errors"]:
         out.append({"kind": "translator", "errors": info["errors"]})
     out += [{"kind": "unlisted", "cls": c} for c in unlisted_wrappers(info)]
+    out.append({"kind": "hook_selftest"})
     out += directed_cases(rng, info)
     out += [mk_case(rng, gen_spec(rng)) for _ in range(250 if tier == "quick" else 2500)]
-    out += [loader_case(rng) for _ in range(0 if tier == "quick" else 40)]
+    # real DataLoader runs for EVERY worker count (one launch serves a whole batch of stacks)
+    for nw in (1, 2, 3):
+        out += [loader_case(rng, nw, 3)] if tier == "quick" else [loader_case(rng, nw, 12) for _ in range(4)]
     out += [launch_case(rng, 4)] if tier == "quick" else [launch_case(rng, 60) for _ in range(3)]
     return out
 
@@ -335,6 +443,8 @@ def search_cases(rng, tier):
     info = T.regenerate()
     for c in directed_cases(rng, info):
         yield c
+    for nw in (1, 2, 3):
+        yield loader_case(rng, nw, 2)
     yield launch_case(rng, 10)
     for c in directed_cases(rng, info):
         yield c
@@ -359,8 +469,43 @@ def shrink(case):
             if n >= 10:     # every candidate costs two interpreter launches
                 return
         return
+    if case.get("kind") == "loader":
+        items = _loader_items(case)
+        base = {k: v for k, v in case.items() if k not in ("spec", "ga")}
+        if len(items) > 1:
+            h = len(items) // 2
+            yield {**base, "items": items[:h]}
+            yield {**base, "items": items[h:]}
+            return
+        it = items[0]
+        if it.get("phist"):
+            yield {**base, "items": [{**it, "phist": []}]}
+        n = 0
+        for c in shrink({"kind": "sim", "spec": it["spec"], "ga": it["ga"], "ws1": 1, "ws2": 2, "rank": 0, "warm": [], "probe": [0]}):
+            if spec_has_sched(c["spec"]):
+                continue
+            yield {**base, "items": [{**it, "spec": c["spec"]}]}
+            n += 1
+            if n >= 12:     # every candidate costs three loader launches
+                return
+        return
     if case.get("kind") != "sim":
         return
+    # histories and the worker info first: the smallest history that still shows the failure
+    if case.get("phist"):
+        yield {**case, "phist": []}
+        if len(case["phist"]) > 1:
+            yield {**case, "phist": case["phist"][:1]}
+    if any(case.get("wh") or []):
+        yield {**case, "wh": [[], [], []]}
+        wh = case["wh"]
+        for j in range(3):
+            if wh[j]:
+                yield {**case, "wh": [w if i != j else [] for i, w in enumerate(wh)]}
+            if len(wh[j]) > 1:
+                yield {**case, "wh": [w if i != j else w[:1] for i, w in enumerate(wh)]}
+    if case.get("wi") is not None:
+        yield {**case, "wi": None}
     spec = case["spec"]
     if "interleaved" in spec:
         for s in spec["interleaved"]:
@@ -455,7 +600,7 @@ def _real_batch(M, idxs):
     return [x, torch.stack(ys)]
 
 
-def _call_collators(ds, idxs, with_exc_text=True):
+def _call_collators(ds, idxs, with_exc_text=True, skip_process_shared=False):
     """run EVERY collator registered on the root dataset(s) on a batch of real samples of the stack (after worker
     initialisation): KDMixCollator mixes x / class, the DINO / I-JEPA collators write their masks into ctx, the padding
     collator pads.  (I-JEPA's iteration counter - a multiprocessing.Value shared by all copies, it seeds the block SIZES
@@ -479,6 +624,11 @@ def _call_collators(ds, idxs, with_exc_text=True):
             batch = [torch.rand(4, 3, 8, 8, generator=g), torch.eye(4)[:4].clone()]
         for c in cols:
             if "_itr_counter" in vars(c):
+                if skip_process_shared:
+                    # (inside concurrently running worker processes the counter - shared memory on purpose - is raced
+                    # for by all workers: what this collator returns is not a function of one worker's seed there; its
+                    # generator is the root's and is compared as a member stream)
+                    continue
                 c._itr_counter.value = -1
             ctx = {}
             try:
@@ -494,16 +644,31 @@ def _call_collators(ds, idxs, with_exc_text=True):
     return out
 
 
-def _init_worker(W, ws, rank, kw):
+def _init_worker(W, ws, rank, kw, wi=None, pre=()):
     """what a dataloader worker does before its first sample: the process-global generators are seeded from the
-    worker's seed (torch.utils.data._utils.worker seeds torch, random and numpy), then the user's worker_init_fn runs"""
-    L.seed_globals(ws)
-    W.worker_init_fn(rank, **kw)
+    worker's seed (torch.utils.data._utils.worker seeds torch, random and numpy), then the user's worker_init_fn runs.
+    wi: what get_worker_info() answers meanwhile ([id, num_workers] or None).  pre: seeds of EARLIER runs of the hook on
+    this very object (the run with ws comes last and has to win)"""
+    for s_ in list(pre) + [ws]:
+        L.seed_globals(s_)
+        with K.MockWorkerInfo(wi, seed=s_, dataset=W):
+            W.worker_init_fn(rank, **kw)
+
+
+def _parent_history(D, case, kw):
+    """earlier runs of the hook on the PARENT object (manual call in the main process, an earlier launch), each under
+    its own global seed and followed by a request (so that the state left behind is used)"""
+    for g in case.get("phist") or []:
+        L.seed_globals(g)
+        D.worker_init_fn(case.get("rank", 0), **kw)
+        _get(D, 0)
 
 
 def run_sim_case(case):
     spec = case["spec"]
     kw = _wi_kwargs(spec)
+    wi = case.get("wi")
+    wh = case.get("wh") or [[], [], []]
     obs = {}
     try:
         L.seed_globals(case["ga"])
@@ -512,23 +677,29 @@ def run_sim_case(case):
         return {"construct_error": f"{type(e).__name__}: {e}", "tb": traceback.format_exc()[-800:]}
     for i in case["warm"]:
         _get(D, i)
+    try:
+        _parent_history(D, case, kw)
+    except Exception as e:  # noqa
+        return {"construct_error": f"worker_init_fn on the parent object raised {type(e).__name__}: {str(e)[:300]}",
+                "tb": traceback.format_exc()[-800:]}
     paths = [p for p, _ in K.slot_objects(D)]
     obs["paths"] = paths
     obs["parent"] = [_stream(o.rng) for _, o in K.slot_objects(D)]
     obs["workers"] = []
-    for ws in (case["ws1"], case["ws2"], case["ws1"]):
+    for ws, pre in zip((case["ws1"], case["ws2"], case["ws1"]), wh):
         W = K.worker_copy(D)
         objs = [o for _, o in K.slot_objects(W)]
-        before_ids = [id(o.rng) for o in objs]
+        before_gens = [o.rng for o in objs]          # (kept alive: an id may be reused once its object is collected)
+        before_ids = [id(g) for g in before_gens]
         before = [_stream(o.rng) for o in objs]
-        rec = {"ws": ws, "before": before}
+        rec = {"ws": ws, "before": before, "pre": list(pre)}
         try:
-            _init_worker(W, ws, case["rank"], kw)
+            _init_worker(W, ws, case["rank"], kw, wi, pre)
         except Exception as e:  # noqa
             rec["error"] = f"{type(e).__name__}: {str(e)[:300]}"
             obs["workers"].append(rec)
             continue
-        rec["same_object"] = [id(o.rng) == b for o, b in zip(objs, before_ids)]
+        rec["same_object"] = [o.rng is g for o, g in zip(objs, before_gens)]
         rec["after"] = [_stream(o.rng) for o in objs]
         rec["gen_ids"] = [before_ids.index(id(o.rng)) if id(o.rng) in before_ids else -1 for o in objs]
         groups = {}
@@ -536,16 +707,24 @@ def run_sim_case(case):
             groups.setdefault(id(o.rng), []).append(k)
         rec["shared"] = sorted(groups.values())
         # what the worker then produces: samples and collated batches (every stochastic decision shows in them)
-        rec["samples"] = [[i, _get(W, i)] for i in case["probe"]]
-        rec["collated"] = _call_collators(W, case["probe"])
+        with K.MockWorkerInfo(wi, seed=ws, dataset=W):
+            rec["samples"] = [[i, _get(W, i)] for i in case["probe"]]
+            rec["collated"] = _call_collators(W, case["probe"])
         obs["workers"].append(rec)
-    # the instrumented worker (case for the Coq model)
+    # the instrumented worker (case for the Coq model); earlier runs of the hook in the worker happen before the slots
+    # are tagged: the model is about ONE run, whatever the slots held before
     W = K.worker_copy(D)
+    try:
+        if wh[0]:
+            _init_worker(W, wh[0][-1], case["rank"], kw, wi, wh[0][:-1])
+    except Exception as e:  # noqa
+        obs["spied_error"] = f"{type(e).__name__}: {str(e)[:300]}"
+        return obs
     spies = K.tag_stack_slots(W, "ctor")
     obs["stack"] = K.live_stack(W)
     try:
         with K.PatchedDefaultRng("wrk") as P:
-            _init_worker(W, case["ws1"], case["rank"], kw)
+            _init_worker(W, case["ws1"], case["rank"], kw, wi)
         obs["created"] = P.count
     except Exception as e:  # noqa
         obs["spied_error"] = f"{type(e).__name__}: {str(e)[:300]}"
@@ -560,7 +739,7 @@ def run_sim_case(case):
 
     L.DRAW_HOOK[0] = on_draw
     try:
-        with K.PatchedDefaultRng("inj"):
+        with K.PatchedDefaultRng("inj"), K.MockWorkerInfo(wi, seed=case["ws1"], dataset=W):
             trip = L.Tripwire()
             obs["samples"] = [[i, _get(W, i)] for i in case["probe"]]
             obs["collated"] = _call_collators(W, case["probe"])
@@ -630,46 +809,158 @@ def run_launch_case(case):
     return {"launches": runs + [here]}
 
 
+def _global_numpy_stream():
+    """first draws of a COPY of the process-global NumPy RNG (not advanced): where the wrappers' own draws come from"""
+    import numpy as np
+    r = np.random.RandomState()
+    r.set_state(np.random.get_state())
+    return [float(v).hex() for v in r.random_sample(8)]
+
+
 def run_loader_case(case):
+    """ONE real DataLoader(num_workers=nw) launch per base seed serves all stacks of the case: the user hook runs the
+    worker_init_fn of every stack, the probe dataset reports - from inside the worker process - the first draws of every
+    member generator (copies), the worker's global NumPy stream, then served samples and collated batches"""
     import gc
+    import json
     import torch
-    from functools import partial
     from torch.utils.data import DataLoader, Dataset, get_worker_info
-    spec = case["spec"]
-    L.seed_globals(case["ga"])
-    D = K.build_stack(spec)
-    obs = {"paths": [p for p, _ in K.slot_objects(D)], "parent": [_stream(o.rng)[:8] for _, o in K.slot_objects(D)], "runs": []}
+    items = _loader_items(case)
     nw = case["nw"]
+    obs = {"items": [], "runs": []}
+    Ds = []
+    for it in items:
+        rec = {}
+        try:
+            L.seed_globals(it["ga"])
+            D = K.build_stack(it["spec"])
+            _parent_history(D, {"phist": it.get("phist"), "rank": 0}, {})
+            rec["paths"] = [p for p, _ in K.slot_objects(D)]
+            rec["parent"] = [_stream(o.rng)[:8] for _, o in K.slot_objects(D)]
+        except Exception as e:  # noqa
+            D = None
+            rec["construct_error"] = f"{type(e).__name__}: {str(e)[:300]}"
+        Ds.append(D)
+        obs["items"].append(rec)
+    n_probe = 3
 
     class Probe(Dataset):
-        def __init__(self, ds):
-            self.ds = ds
+        def __init__(self, dss):
+            self.dss = dss
 
         def __len__(self):
-            return 4 * nw
+            return nw        # batch_size 1, index queue filled round-robin: every worker serves exactly one item
 
         def __getitem__(self, i):
             info = get_worker_info()
-            objs = [o for _, o in K.slot_objects(self.ds)]
-            vals = [[float.fromhex(h) for h in _stream(o.rng)[:8]] for o in objs]
-            return (info.id if info is not None else -1), torch.tensor(vals, dtype=torch.float64).reshape(len(objs), 8)
+            out = {"wid": info.id if info is not None else -1, "nw": info.num_workers if info is not None else 0,
+                   "gnp": _global_numpy_stream(), "items": []}
+            for ds in self.dss:
+                if ds is None:
+                    out["items"].append(None)
+                    continue
+                objs = [o for _, o in K.slot_objects(ds)]
+                rec = {"streams": [_stream(o.rng)[:8] for o in objs]}
+                n = len(ds)
+                idxs = sorted({0, n - 1, n // 2})[:n_probe]
+                rec["samples"] = [[j, _get(ds, j)] for j in idxs]
+                rec["collated"] = _call_collators(ds, idxs, with_exc_text=False, skip_process_shared=True)
+                out["items"].append(rec)
+            return json.dumps(out)
+
+    def hook(worker_id):
+        for ds in Ds:
+            if ds is not None:
+                ds.worker_init_fn(worker_id)
 
     for ts in (case["ts1"], case["ts2"], case["ts1"]):
         torch.manual_seed(ts)
         per_worker = {}
         it = None
         try:
-            it = iter(DataLoader(Probe(D), batch_size=1, num_workers=nw, worker_init_fn=D.worker_init_fn))
-            for wid, vals in it:
-                per_worker.setdefault(int(wid[0]), []).append([[float(v).hex() for v in row] for row in vals[0]])
+            it = iter(DataLoader(Probe(Ds), batch_size=1, num_workers=nw, worker_init_fn=hook, multiprocessing_context="fork"))
+            for blob in it:
+                r = json.loads(blob[0])
+                per_worker.setdefault(str(r["wid"]), []).append(r)
         except Exception as e:  # noqa
             obs["runs"].append({"ts": ts, "error": f"{type(e).__name__}: {str(e)[:300]}"})
             continue
         finally:
             del it      # shut the workers down now, not in some later forked child
             gc.collect()
-        obs["runs"].append({"ts": ts, "workers": {str(k): v for k, v in sorted(per_worker.items())}})
+        obs["runs"].append({"ts": ts, "workers": dict(sorted(per_worker.items()))})
     return obs
+
+
+def oracle_loader(case, obs):
+    items = _loader_items(case)
+    nw = case["nw"]
+    runs = obs["runs"]
+
+    def noexc(v):
+        return v[:2] + v[3:] if isinstance(v, list) and v and v[0] == "EXC" else v     # (messages may hold addresses)
+
+    for r in runs:
+        if "error" in r:
+            return f"DataLoader(num_workers={nw}) over {len(items)} stacks raised {r['error']}"
+        if sorted(r["workers"]) != [str(k) for k in range(nw)] or any(len(v) != 1 for v in r["workers"].values()):
+            return (f"harness: DataLoader(num_workers={nw}): items were served by workers "
+                    f"{ {k: len(v) for k, v in r['workers'].items()} }, expected one item per worker")
+        for wid, (rec,) in r["workers"].items():
+            if rec["nw"] != nw:
+                return f"harness: worker {wid} saw num_workers={rec['nw']}, expected {nw}"
+    W = [{wid: v[0] for wid, v in r["workers"].items()} for r in runs]
+    for k, it in enumerate(items):
+        sig = K.spec_sig(it["spec"])
+        io = obs["items"][k]
+        where = f"[stack {k} of {len(items)}, real DataLoader(num_workers={nw})" + (
+            f", worker_init_fn ran {len(it['phist'])}x on the dataset in the main process before the launch" if it.get("phist") else "") + "]"
+        if "construct_error" in io:
+            return f"{sig}: construction failed: {io['construct_error']} {where}"
+        paths = io["paths"]
+        for rn, r in enumerate(W):
+            for wid, rec in r.items():
+                st = rec["items"][k]["streams"]
+                for s_, p_ in enumerate(paths):
+                    if st[s_] == io["parent"][s_]:
+                        return (f"{sig}: worker {wid} (base seed {runs[rn]['ts']}): after worker_init_fn the generator of {p_} "
+                                f"is still the copy inherited from the parent process (first draws {st[s_][:2]}) {where}")
+            ws = sorted(r)
+            for a in range(len(ws)):
+                for b in range(a + 1, len(ws)):
+                    if r[ws[a]]["gnp"] == r[ws[b]]["gnp"]:
+                        return f"harness / torch: workers {ws[a]} and {ws[b]} have the same global NumPy stream {where}"
+                    for s_, p_ in enumerate(paths):
+                        if r[ws[a]]["items"][k]["streams"][s_] == r[ws[b]]["items"][k]["streams"][s_]:
+                            return f"{sig}: workers {ws[a]} and {ws[b]} of one launch replay the same stream in {p_} {where}"
+        # equal base seeds (equal worker seeds): everything agrees
+        for wid in W[0]:
+            a, b = W[0][wid]["items"][k], W[2][wid]["items"][k]
+            for s_, p_ in enumerate(paths):
+                if a["streams"][s_] != b["streams"][s_]:
+                    return (f"{sig}: two launches with the same base seed {case['ts1']}: worker {wid} does not reproduce the "
+                            f"stream of {p_} {where}")
+            for (i, u), (_, v) in zip(a["samples"], b["samples"]):
+                if noexc(u) != noexc(v):
+                    return (f"{sig}: two launches with the same base seed {case['ts1']}: worker {wid} does not reproduce sample "
+                            f"{i}: {str(u)[:160]} vs {str(v)[:160]} {where}")
+            if a["collated"] != b["collated"]:
+                return (f"{sig}: two launches with the same base seed {case['ts1']}: worker {wid} does not reproduce the "
+                        f"batches of the registered collators {where}")
+        # different base seeds: every member stream differs
+        for wid in W[0]:
+            if W[0][wid]["gnp"] == W[1][wid]["gnp"]:
+                return f"harness / torch: base seeds {case['ts1']} / {case['ts2']} give worker {wid} the same global NumPy stream"
+            a, b = W[0][wid]["items"][k], W[1][wid]["items"][k]
+            for s_, p_ in enumerate(paths):
+                if a["streams"][s_] == b["streams"][s_]:
+                    return (f"{sig}: two launches with different base seeds {case['ts1']} / {case['ts2']} give worker {wid} the "
+                            f"same stream in {p_} (first draws {a['streams'][s_][:2]}): the launches replay one another {where}")
+        for wid, rec in W[0].items():
+            for i, v in rec["items"][k]["samples"]:
+                if isinstance(v, list) and v and v[0] == "EXC" and "transforms" not in v[3]:
+                    return f"{sig}: worker {wid}: sample {i} raised {v[1]}: {v[2]} (in {v[3] or 'library code'}) {where}"
+    return None
 
 
 def run_impl(case):
@@ -677,6 +968,8 @@ def run_impl(case):
         return {"skipped": "translator"}
     if case.get("kind") == "unlisted":
         return {"unlisted": case["cls"] in unlisted_wrappers(T.regenerate())}
+    if case.get("kind") == "hook_selftest":
+        return {"selftest": T.hook_selftest()}
     if case.get("kind") == "loader":
         return run_loader_case(case)
     if case.get("kind") == "launch":
@@ -706,6 +999,16 @@ def oracle(case, obs):
             return (f"sample wrapper class {case['cls']} has stochastic parts (called transform fields / own draws) but the "
                     "harness builds no stacks with it (harness/c09.py GENERATED_WRAPPERS; fail closed)")
         return None
+    if case.get("kind") == "hook_selftest":
+        bad = [r for r in obs["selftest"] if r["expected"] != r["got"]]
+        n_neg = sum(1 for r in obs["selftest"] if r["expected"] == "refused")
+        if bad or n_neg < 15:
+            return ("self-test of the worker_init_fn shape checks failed (harness/translate_rng.py must refuse conditional / "
+                    f"stateful / missing re-seeds and accept the well-formed controls; {n_neg} negative sources): "
+                    + "; ".join(f"{r['name']}: expected {r['expected']}, got {r['got']} ({r['detail']})" for r in bad))
+        return None
+    if case.get("kind") == "loader":
+        return oracle_loader(case, obs)
     if case.get("kind") == "launch":
         runs = obs["launches"]
         for r in runs:
@@ -743,34 +1046,6 @@ def oracle(case, obs):
     if "construct_error" in obs:
         return f"{sig}: construction failed: {obs['construct_error']}"
     paths = obs["paths"]
-    if case.get("kind") == "loader":
-        runs = obs["runs"]
-        for r in runs:
-            if "error" in r:
-                return f"{sig}: DataLoader(num_workers={case['nw']}) raised {r['error']}"
-            if len(r["workers"]) != case["nw"]:
-                return None if not paths else f"{sig}: only workers {list(r['workers'])} produced items"
-            for wid, items in r["workers"].items():
-                if any(it != items[0] for it in items):
-                    return f"{sig}: harness: probe changed between items of worker {wid}"
-                for s, p in enumerate(paths):
-                    if items[0][s] == obs["parent"][s]:
-                        return (f"{sig}: real DataLoader worker {wid}: generator of {p} is still the copy inherited from the "
-                                f"parent process after worker_init_fn")
-            ws = sorted(r["workers"])
-            for a in range(len(ws)):
-                for b in range(a + 1, len(ws)):
-                    for s, p in enumerate(paths):
-                        if r["workers"][ws[a]][0][s] == r["workers"][ws[b]][0][s]:
-                            return f"{sig}: real DataLoader workers {ws[a]} and {ws[b]} replay the same stream in {p}"
-        if paths and runs[0]["workers"] != runs[2]["workers"]:
-            return f"{sig}: the same torch seed {case['ts1']} (same worker seeds) does not reproduce the workers' streams"
-        if paths and case["ts1"] != case["ts2"]:
-            for wid in runs[0]["workers"]:
-                for s, p in enumerate(paths):
-                    if runs[0]["workers"][wid][0][s] == runs[1]["workers"].get(wid, [[None] * len(paths)])[0][s]:
-                        return f"{sig}: different base seeds give worker {wid} the same stream in {p}"
-        return None
     for w in obs["workers"]:
         if "error" in w:
             return f"{sig}: worker_init_fn(rank={case['rank']}) raised {w['error']}"
@@ -854,10 +1129,23 @@ def features(case, obs):
         for r in obs.get("launches", []):
             yield "launch_hashseed=" + str(r.get("hashseed"))
         return
+    if case.get("kind") == "loader":
+        yield "kind=loader"
+        yield "loader_num_workers=%d" % case["nw"]
+        yield "loader_stacks=%d" % len(_loader_items(case))
+        for it in _loader_items(case):
+            yield "loader_parent_hooks=%d" % len(it.get("phist") or [])
+            for l in (it["spec"].get("layers") or []):
+                yield "loader_layer=" + l["w"]
+        return
     if case.get("kind") != "sim":
         yield "kind=" + str(case.get("kind"))
         return
     spec = case["spec"]
+    wi = case.get("wi")
+    yield "worker_info=" + ("None" if wi is None else "num_workers=%d" % wi[1])
+    yield "parent_hooks=%d" % len(case.get("phist") or [])
+    yield "worker_pre_hooks=" + "/".join(str(len(w)) for w in (case.get("wh") or [[], [], []]))
     yield "top=" + ("interleaved" if "interleaved" in spec else "ModeWrapper")
     specs = spec["interleaved"] if "interleaved" in spec else [spec]
     for sp in specs:
@@ -879,9 +1167,9 @@ def features(case, obs):
 
 def nontrivial_key(case, obs):
     if case.get("kind") == "loader":
-        if not obs.get("paths") or any("error" in r for r in obs.get("runs", [])):
+        if any("error" in r for r in obs.get("runs", [])) or not any(io.get("paths") for io in obs.get("items", [])):
             return None
-        return ("loader", K.spec_sig(case["spec"]), case["nw"])
+        return ("loader", case["nw"], tuple(K.spec_sig(it["spec"]) for it in _loader_items(case)))
     if case.get("kind") == "launch":
         runs = obs.get("launches", [])
         if len(runs) < 3 or any("crash" in r for r in runs) or len({r["hashseed"] for r in runs}) < 3:
